@@ -732,7 +732,10 @@ META = {
                   'strictly increasing spans ending exactly at b (make_knots_float_bounded_2000); the np.arange formula of the '
                   'unrepaired source is refuted (n=49). For every knot vector: mesh strictly increasing, mesh[k2m[i]] = kv[i], '
                   'support = mesh[mesh_support_idx], mesh_support_idx_all row-wise, mesh_span_indices = non-empty spans with '
-                  'numspans entries containing findspan, refine = sorted permutation of the union, == reflexive and symmetric '
+                  'numspans entries containing findspan; knots_to_mesh is the order isomorphism knots -> mesh indices (monotone, '
+                  '+1 across every non-empty span, 0 .. numspans), so the m-th listed span is mesh cell m and mesh_support_idx '
+                  'is an ordered pair (strict iff the support is non-degenerate); pyx_findspans / first_active_at entry-wise '
+                  'and in range; refine = sorted permutation of the union and nested (multiplicities add), == reflexive and symmetric '
                   '(np.allclose form refuted). The constructed vector satisfies the boolean open_kv for mult <= max(p,1), so C02\'s '
                   'theorems (partition of unity, non-negativity, locality, single_ev = collocation = reference) hold on it '
                   '(make_knots_basis_properties). Greville points: running average, inside the support, strictly inside for the '
